@@ -6,7 +6,7 @@
    kinds it has no case for (recorded finding less-skips-uint64-family). *)
 From Coq Require Import Permutation Sorted.
 From JV Require Import Model.Base Model.GoTime Gen.TypeGo Model.Schema Model.Value
-  Model.Resource Model.Filter Model.Range Proofs.C09Facts Proofs.C09Order.
+  Model.Resource Model.Filter Model.Range Proofs.C09Facts Proofs.C09Order Proofs.C09Select.
 
 (* the result is the window [num*size, (num+1)*size) of the sorted selection *)
 Theorem C09_window : forall sorter c ids f rules size num kept,
@@ -20,6 +20,26 @@ Theorem C09_select : forall c ids r,
   ids <> [] -> (In r (select_ids c ids) <-> In r c /\ In (id_of r) ids).
 Proof. exact select_ids_In. Qed.
 Print Assumptions C09_select.
+
+(* "exactly": for an ID list without repetition (the property quantifies over ID
+   subsets) the selection is the sub-list of the collection, order kept, whose IDs
+   are listed - every selected resource once ... *)
+Theorem C09_select_once : forall c ids,
+  NoDup ids -> ids <> [] -> select_ids c ids = List.filter (listed ids) c.
+Proof. exact select_ids_once. Qed.
+Print Assumptions C09_select_once.
+
+Theorem C09_select_keeps_ids_unique : forall c ids,
+  NoDup ids -> NoDup (map id_of c) -> NoDup (map id_of (select_ids c ids)).
+Proof. exact select_ids_nodup. Qed.
+Print Assumptions C09_select_keeps_ids_unique.
+
+(* ... and the hypothesis is needed: an ID listed twice selects its resource
+   twice (Range's selection loop has no break); outside the property's domain *)
+Theorem C09_select_repeated_id_twice : forall r,
+  select_ids [r] [id_of r; id_of r] = [r; r].
+Proof. exact select_ids_twice. Qed.
+Print Assumptions C09_select_repeated_id_twice.
 
 (* ... and that the filter allows *)
 Theorem C09_filter : forall f l kept,
